@@ -433,7 +433,9 @@ func rulesC16(c *Ctx) {
 				// cache hit by type: the schema of the same entry goes to sfield
 				okPair := false
 				for _, w2 := range Writes(ss.Body, false) {
-					if derefOf(w2.LHS, sf) && w2.RHS != nil && ss.ObjOf(w2.RHS) == ss.VarFromCall(getT, 0) && sg.Dominates(sg.VertexOf(w2.Stmt), wv) {
+					// (in either order: both stores sit on every path through this one)
+					w2v := sg.VertexOf(w2.Stmt)
+					if derefOf(w2.LHS, sf) && w2.RHS != nil && ss.ObjOf(w2.RHS) == ss.VarFromCall(getT, 0) && (sg.Dominates(w2v, wv) || func() bool { ok, _ := sg.PostDominatedBy(wv, func(u int) bool { return u == w2v }); return ok }()) {
 						okPair = true
 					}
 				}
